@@ -451,13 +451,13 @@ def grow(rng, e, depth, bad_rate=0.06):
             shp = (shape[0], shape[1] + 1) if bad else shape
             e = (op, e, rand_matrix(rng, *shp))
         elif op == 'ldot':
-            k = rand_dim(rng, 1, 4) if kind == 'slr' or rng.random() < 0.4 else shape[0]
+            k = rand_dim(rng, 1, 4) if rng.random() < 0.5 else shape[0]     # square half of the time
             inner = shape[0] + (1 if bad else 0)
-            e = ('ldot', rand_matrix(rng, k, inner), e)
+            e = ('ldot', rand_matrix(rng, k, inner, density=0.6), e)
         elif op == 'rdot':
-            k = rand_dim(rng, 1, 4) if kind == 'slr' or rng.random() < 0.4 else shape[1]
+            k = rand_dim(rng, 1, 4) if rng.random() < 0.5 else shape[1]
             inner = shape[1] + (1 if bad else 0)
-            e = ('rdot', e, rand_matrix(rng, inner, k))
+            e = ('rdot', e, rand_matrix(rng, inner, k, density=0.6))
     return e
 
 
@@ -837,8 +837,11 @@ def cases_safe_dot(ctx, rng):
     if (ka, kb) in (('op', 'csr'), ('csr', 'op')) and (va if ka == 'op' else vb)[0] == 'nrm':
         return out
     impl = _call(f)
+    spec = None
+    if impl.startswith('ok mat ') or impl.startswith('ok op '):
+        spec = 'c15.spec_safedot %s %s %s %s %s' % (sa, sb, enc_vec(probe), impl[3:], TOL_TOK)
     out.append(Case(('safedot', sa, sb, enc_vec(probe)), {'entry': 'safe_sparse_dot', 'a': ka, 'b': kb},
-                    'c15.safedot %s %s %s' % (sa, sb, enc_vec(probe)), impl, None, True,
+                    'c15.safedot %s %s %s' % (sa, sb, enc_vec(probe)), impl, spec, True,
                     {'f': 'safe_sparse_dot', 'a': da, 'b': db, 'probe': probe.tolist()}, canon='safedot'))
     return out
 
@@ -856,7 +859,7 @@ def _close_lists(a, b):
 def _same(c, model, impl, spec_ok):
     if model.startswith('err') and impl.startswith('err'):
         # same refusal; scipy / numpy word some errors with another class (TypeError vs ValueError)
-        return model == impl or (c.spec is None and {model, impl} <= {'err ValueError', 'err TypeError'})
+        return model == impl or (c.tol == 'refused' and {model, impl} <= {'err ValueError', 'err TypeError'})
     if not (model.startswith('ok') and impl.startswith('ok')):
         return False
     mt, it = model.split(' '), impl.split(' ')
@@ -892,8 +895,10 @@ def _topk_tie(c, mt, it):
 
 def evaluate(ctx, cases):
     for c in cases:
-        if c.run and ' Unsupported' in c.run:
-            raise ToolFailure('bad request')
+        if c.spec is None and c.run and str(c.impl).startswith('err'):
+            # the implementation refused: justified only if the model refuses the same request
+            c.spec = 'c15.spec_refused ' + c.run
+            c.tol = 'refused'
     _evaluate(ctx, cases, same=_same)
 
 
@@ -1014,6 +1019,36 @@ def run(ctx):
 def search(ctx, pending):
     """Spec lines over a larger space: the exhaustive leaves with every single operation on top, and fresh random
     expressions around the entries that disagreed."""
+    sub = Sub(ctx)
+    # (a) the implementation refused an input on which the model of the code (and the dense definition) is defined:
+    #     the model's own answer is checked against the specification; if it holds, the refused input is a failing input
+    refused = []
+    for kind, sig, obj in pending:
+        if kind != 'correspondence' or not str(obj.get('impl', '')).startswith('err') or not str(obj.get('model', '')).startswith('ok '):
+            continue
+        line = obj.get('line') or ''
+        toks = line.split(' ')
+        spec = None
+        if toks[0] == 'c15.dot':
+            spec = 'c15.spec_dot %s %s %s' % (' '.join(toks[1:]), obj['model'][3:], TOL_TOK)
+        elif toks[0] in ('c15.dotmat', 'c15.mv2d'):
+            spec = 'c15.spec_dotmat %s %s %s' % (' '.join(toks[1:]), obj['model'][3:], TOL_TOK)
+        elif toks[0] == 'c15.shape':
+            spec = 'c15.spec_shape %s %s' % (' '.join(toks[1:]), obj['model'][3:])
+        elif toks[0] == 'c15.sum':
+            spec = 'c15.spec_sum %s %s %s' % (' '.join(toks[1:]), obj['model'][3:], TOL_TOK)
+        if spec:
+            refused.append((sig, obj, spec))
+    found = []
+    if refused:
+        answers = ctx.lean([r[2] for r in refused])
+        for (sig, obj, spec), a in zip(refused, answers):
+            if a == 'holds':
+                found.append({'sig': sig, 'case': obj.get('case'),
+                              'detail': {'implementation': obj.get('impl'), 'dense_definition_gives': obj.get('model'),
+                                         'what': 'the implementation raises on an input for which the denoted dense matrix (and the model of the code) give a result'}})
+    if found:
+        return found[:5]
     rng = ctx.rng
     cases = []
     for leaf in exhaustive_leaf_exprs():
@@ -1032,7 +1067,6 @@ def search(ctx, pending):
         for k in range(0, n + 2):
             for sort in (True, False):
                 cases += cases_topk(ctx, rng, [rng.choice([0, 1, 2]) for _ in range(n)], k, sort)
-    sub = Sub(ctx)
     evaluate(sub, [c for c in cases if c.spec])
     found = sub.found()
     if not found:
